@@ -11,7 +11,7 @@ from ..util import Abort, Info, abort_exception, cm_enter, cm_exit, expect, expe
 
 ID = "C04"
 LEVEL = "fault_enumeration"
-BUDGET = {"quick": 6000, "thorough": 200000}
+BUDGET = {"quick": 6000, "thorough": 600000}
 RULE = (
     "case = interleaved history of 1-3 NON-pruning tries over one shared guard database: "
     "direct ops, committed/aborted squash_changes batches, re-opening a trie at an old "
